@@ -445,7 +445,7 @@ func (p *Pkg) kvmSem(m *parseModel) *KvmSem {
 	var post []ast.Stmt
 	seen := false
 	for _, s := range m.fd.Body.List {
-		if s == m.loop {
+		if s == m.loopTop {
 			seen = true
 			continue
 		}
@@ -462,7 +462,7 @@ func (p *Pkg) kvmSem(m *parseModel) *KvmSem {
 	// break`, one test after the loop): when the loop ends normally they are
 	// nil — every failure leaves it (R01.prop decides that separately)
 	for _, s := range m.fd.Body.List {
-		if s == m.loop {
+		if s == m.loopTop {
 			break
 		}
 		ast.Inspect(s, func(n ast.Node) bool {
